@@ -47,6 +47,7 @@ def setup(ctx):
     ctx.require("monitor", "cli_get_calls", 12)
     ctx.require("monitor", "calls_after_neighbour_admin", 21)
     ctx.require("monitor", "calls_after_restore", 12)
+    ctx.require("monitor", "clients_built_in_trouble", 15)
     ctx.require("monitor", "calls", 31)
     ctx.require("monitor", "failed_verifications", 19)
     ctx.require("monitor", "verify_returns_seen", 29)
@@ -331,6 +332,8 @@ def run(ctx):
                 run_after_neighbour_admin(ctx, peer, idents, state, tmp, mon)
             if ctx.mine(k + 9):
                 run_after_restore(ctx, idents, state, tmp, behaviour)
+            if ctx.mine(k + 10):
+                run_client_built_in_trouble(ctx, idents, state, tmp, behaviour)
             # ---- concurrent calls on one client
             if ctx.mine(k + 1):
                 run_concurrent(ctx, peer, idents, state, tmp, mon)
@@ -737,6 +740,76 @@ def run_after_restore(ctx, idents, state, tmp, behaviour):
             os.environ.pop("HOME", None)
         else:
             os.environ["HOME"] = old_home
+
+
+def run_client_built_in_trouble(ctx, idents, state, tmp, behaviour):
+    """The client object is built at a moment when the pin store cannot be opened or initialised (not a database,
+    a directory in its place, the n-th statement of the constructor failing as on a busy store); the trouble passes.
+    Building may fail - but a client that exists, asked to pin, sends nothing to a peer whose certificate is not the pin."""
+    import warnings as _warnings
+
+    from cryptography import x509
+
+    from nauyaca.client.session import GeminiClient
+    from nauyaca.security.tofu import CertificateChangedError, TOFUDatabase
+
+    good = x509.load_der_x509_certificate(idents["good"].der)
+    with peers.ScriptedPeer(idents["other"], behaviour, name="built-in-trouble") as p7:
+        for trouble in ("sql-fault-1", "sql-fault-2", "sql-fault-3", "not-a-database", "path-is-a-directory"):
+            for op in ("get", "upload", "delete"):
+                home = os.path.join(tmp, f"trouble-{trouble}-{op}")
+                os.makedirs(home)
+                dbp = Path(home) / "tofu.db"
+                TOFUDatabase(dbp).trust("127.0.0.1", p7.port, good)
+                state.update(mode="eager", redirect_to=None)
+                state["go"].set()
+                client, built = None, "built"
+                try:
+                    with _warnings.catch_warnings():
+                        _warnings.simplefilter("ignore")
+                        if trouble.startswith("sql-fault"):
+                            with DbFault(int(trouble[-1])):
+                                client = GeminiClient(timeout=6, trust_on_first_use=True, tofu_db_path=dbp)
+                        else:
+                            os.rename(dbp, str(dbp) + ".aside")
+                            if trouble == "not-a-database":
+                                dbp.write_bytes(b"this is not an sqlite file" * 40)
+                            else:
+                                os.mkdir(dbp)
+                            try:
+                                client = GeminiClient(timeout=6, trust_on_first_use=True, tofu_db_path=dbp)
+                            finally:
+                                os.rmdir(dbp) if dbp.is_dir() else os.unlink(dbp)
+                                os.rename(str(dbp) + ".aside", dbp)
+                except BaseException as e:  # noqa: BLE001
+                    built = f"constructor raised {type(e).__name__}"
+                ctx.count("monitor", "clients_built_in_trouble")
+                url = f"gemini://127.0.0.1:{p7.port}/private?q=SECRETQUERY"
+                n0 = len(p7.log)
+                res = ("not-built",)
+                if client is not None:
+                    async def call():
+                        if op == "get":
+                            return await client.get(url)
+                        if op == "delete":
+                            return await client.delete(url, token="SECRETTOKEN")
+                        return await client.upload(url, b"SECRET" * 30, mime_type="text/plain", token="SECRETTOKEN")
+
+                    try:
+                        resp = asyncio.run(call())
+                        res = ("response", resp.status)
+                    except CertificateChangedError:
+                        res = ("changed",)
+                    except BaseException as e:  # noqa: BLE001
+                        res = ("error", type(e).__name__)
+                    p7.wait_idle(3)
+                    ctx.count("monitor", "calls")
+                    ctx.count("monitor", "failed_verifications")
+                received = b"".join(x["received"] for x in p7.log[n0:])
+                wit = {"operation": op, "store_trouble_while_the_client_was_built": trouble, "constructor": built, "result": res, "peer_received_len": len(received), "peer_received_head": received[:100]}
+                if received:
+                    ctx.violation(f"peer-received-bytes:entry={op}:pin=changed:client-built-while-store-unavailable", f"{len(received)} request bytes reached a peer whose certificate differs from the pin", wit)
+                ctx.case(("built-in-trouble", trouble, op, built == "built", res[0], bool(received)), True, sample=wit)
 
 
 def run_reuse_after_context(ctx, peer, idents, state, tmp, mon):
